@@ -47,12 +47,15 @@ HotLadder(o) ==
     [] o = 2 -> <<HUtop, UtH(TMin + 240, TMin + 250), UtH(TMin + 90, TMin + 100)>>
     [] o = 3 -> <<HUtop, UtH(TMin + 100, TMin + 300)>>                       \* 200-unit glide
     [] o = 4 -> <<HUtop, UtH(TMin + 190, TMin + 200), UtH(TMin + 50, TMin + 150)>>   \* isothermal + 100-unit glide
+    [] o = 5 -> <<UtH(TMin - 300, TMin - 290)>>   \* only a hot utility BELOW everything (where the service puts the
+                                                  \* default HU of a problem without cold streams): top row is a process row
 ColdLadder(o) ==
   CASE o = 0 -> <<CUbot>>
     [] o = 1 -> <<CUbot, UtC(TMin + 100, TMin + 110)>>
     [] o = 2 -> <<CUbot, UtC(TMin + 50, TMin + 60), UtC(TMin + 200, TMin + 210)>>
     [] o = 3 -> <<CUbot, UtC(TMin, TMin + 200)>>
     [] o = 4 -> <<CUbot, UtC(TMin + 100, TMin + 110), UtC(TMin + 150, TMin + 250)>>
+    [] o = 5 -> <<UtC(TMax + 290, TMax + 300)>>   \* only a cold utility ABOVE everything (default CU of a problem without hot streams)
 
 Sup(u) == IF u.k = "H" THEN u.hi ELSE u.lo      \* shifted supply level
 Tar(u) == IF u.k = "H" THEN u.lo ELSE u.hi      \* shifted target level
@@ -146,7 +149,9 @@ ColdU == ColdOrder(CU_)
 (* the machine *)
 Init ==
   /\ \E n \in 1..MaxStreams : \E f \in IdxSeqs(n) : \E ho \in HotOpts : \E co \in ColdOpts :
-        inp = [S |-> [j \in 1..n |-> USeq[f[j]]], HU |-> HotLadder(ho), CU |-> ColdLadder(co), ho |-> ho, co |-> co,
+        /\ (ho = 5 => \A j \in 1..n : USeq[f[j]].k = "H")      \* no cold stream: Qh = 0
+        /\ (co = 5 => \A j \in 1..n : USeq[f[j]].k = "C")      \* no hot stream:  Qc = 0
+        /\ inp = [S |-> [j \in 1..n |-> USeq[f[j]]], HU |-> HotLadder(ho), CU |-> ColdLadder(co), ho |-> ho, co |-> co,
                D |-> <<>>]
   /\ phase = "init" /\ k = 0 /\ assigned = RZero
   /\ hotQ = <<>> /\ coldQ = <<>>
